@@ -176,6 +176,13 @@ def fam_big_bursts():
         prog.sort(key=lambda it: it['at'])
         out.append({'timeout': 2.0, 'func': {'dur': 0.0, 'fail': []}, 'prog': prog, 'end': 30.0, 'form': 'direct',
                     'trace': False, 'wall': 60.0})
+    # one submission with very many elements: a list (loaded in the loop) / an iterator (drained by a worker thread
+    # that runs far ahead of the loop: thousands of hand-over callbacks are pending at once)
+    for n, kind, pre in itertools.product([300, 1100, 3000], ['iter', 'list'], [False, True]):
+        prog = [{'at': 0.0, 'op': 'call', 'id': 1, 'x': 0}] if pre else []
+        prog.append({'at': 1.0, 'op': 'map', 'id': 2, 'xs': list(range(1, n + 1)), 'kind': kind})
+        out.append({'timeout': 2.0, 'func': {'dur': 0.0, 'fail': []}, 'prog': prog, 'end': 30.0, 'form': 'direct',
+                    'trace': False, 'wall': 60.0})
     return out
 
 
